@@ -411,9 +411,19 @@ _RULE_ADDENDA_R5 = {
     'C19': ' Round 5: the bot is configured with a foreign account UUID in a third of the cases; the agreed UUID must be the offline UUID.',
     'C20': ' Round 5: C20Bounded - 1500 (thorough 6000) rounds per case of 2..8 producers pushing once into a ChannelQueue with 1-2 free slots and no consumer: all return within 10 s and exactly the free slots are taken.',
 }
+_RULE_ADDENDA_R6 = {
+    'C01': ' Round 6: named types EmbL and EmbR both embed EmbA; embedding both makes one struct type reachable twice at one depth (nobody owns its keys).',
+    'C03': " Round 6: entry 'rawelems' decodes into []RawMessage / map[string]RawMessage / map[string][]RawMessage (by root tag).",
+    'C06': ' Round 6: the optional-NBT absent form NBT(nil) (wire 00, count 1); a packet cut at the last field boundary must not Scan.',
+    'C14': ' Round 6: real files (os.File) also in the quick tier (1 history in 24).',
+    'C16': ' Round 6: passwords of 255..1031 bytes sharing a prefix, lengths differing by multiples of 256.',
+    'C19': " Round 6: the harness LoginChecker records the (name, uuid) it is asked about: it must be the player's name and offline UUID.",
+}
 for _pid, _txt in _RULE_ADDENDA_R3.items():
     PROPS[_pid]["rule"] = PROPS[_pid].get("rule", "") + _txt
 for _pid, _txt in _RULE_ADDENDA_R4.items():
     PROPS[_pid]["rule"] = PROPS[_pid].get("rule", "") + _txt
 for _pid, _txt in _RULE_ADDENDA_R5.items():
+    PROPS[_pid]["rule"] = PROPS[_pid].get("rule", "") + _txt
+for _pid, _txt in _RULE_ADDENDA_R6.items():
     PROPS[_pid]["rule"] = PROPS[_pid].get("rule", "") + _txt
